@@ -39,7 +39,7 @@ var tiers = map[string]map[string]tierCfg{
 	"quick": {
 		"C01": {60000, 120}, "C02": {60000, 120}, "C03": {40000, 120}, "C04": {60000, 120}, "C05": {30000, 120},
 		"C06": {50000, 120}, "C07": {12000, 120}, "C08": {30000, 120}, "C09": {40000, 120}, "C10": {40000, 120},
-		"C13": {30000, 120}, "C14": {30000, 120}, "C16": {24000, 150}, "C19": {60000, 120}, "C20": {40000, 120},
+		"C13": {30000, 120}, "C14": {60000, 120}, "C16": {24000, 150}, "C19": {60000, 120}, "C20": {40000, 120},
 	},
 	"thorough": {
 		"C01": {1500000, 2400}, "C02": {1500000, 2400}, "C03": {1000000, 2400}, "C04": {1500000, 2400}, "C05": {700000, 2400},
